@@ -52,7 +52,7 @@ pub async fn run_swarm_worker(
             torrents.borrow_mut().clean(&config, &access_list, server_start_instant);
 
             #[cfg(aquatic_verif)]
-            aquatic_common::verif::count("http.clean_done");
+            aquatic_common::verif::count_per_thread("http.clean_done");
 
             Some(Duration::from_secs(config.cleaning.torrent_cleaning_interval))
         })()
@@ -68,7 +68,7 @@ pub async fn run_swarm_worker(
     TimerActionRepeat::repeat(enclose!((peer_valid_until) move || {
         enclose!((peer_valid_until) move || async move {
             #[cfg(aquatic_verif)]
-            aquatic_common::verif::count("http.time_refreshed");
+            aquatic_common::verif::count_per_thread("http.time_refreshed");
 
             if let Some(valid_until) = ValidUntil::new(server_start_instant, max_peer_age) {
                 *peer_valid_until.borrow_mut() = valid_until;
